@@ -209,6 +209,16 @@ func locksetOf(fn *ssa.Function, initial map[string]bool) map[ssa.Instruction]ma
 					s[n] = true
 				} else if op == -1 {
 					delete(s, n)
+				} else if g := staticCallee(x.Common()); g != nil && g != fn && haveReference && isNewHelper(g) && len(g.Blocks) > 0 {
+					// a helper the reference tree does not have: a wrapper that returns with a mutex held on all its
+					// paths acquires it for the caller, one that unlocks releases it (named in the caller's terms)
+					acq, rel := lockSummary(g)
+					for _, n := range rel {
+						delete(s, substLockName(n, x.Common()))
+					}
+					for _, n := range acq {
+						s[substLockName(n, x.Common())] = true
+					}
 				}
 			case *ssa.Defer:
 				// deferred unlock: lock stays held; nothing to do
@@ -297,4 +307,88 @@ func structName(t interface{ String() string }) string {
 	s := t.String()
 	s = strings.TrimPrefix(s, "*")
 	return canon(shortName(s))
+}
+
+var (
+	lockSummaries   = map[*ssa.Function][2][]string{}
+	lockSummaryBusy = map[*ssa.Function]bool{}
+)
+
+// lockSummary: the mutexes g holds at every one of its returns (acquired) and those it unlocks without holding
+// them at every return (released), in g's own terms.
+func lockSummary(g *ssa.Function) (acquired, released []string) {
+	if v, ok := lockSummaries[g]; ok {
+		return v[0], v[1]
+	}
+	if lockSummaryBusy[g] {
+		return nil, nil
+	}
+	lockSummaryBusy[g] = true
+	defer delete(lockSummaryBusy, g)
+	rec := locksetOf(g, nil)
+	var held map[string]bool
+	for _, ret := range returnsOf(g) {
+		cur := rec[ret]
+		if held == nil {
+			held = map[string]bool{}
+			for k := range cur {
+				held[k] = true
+			}
+			continue
+		}
+		for k := range held {
+			if !cur[k] {
+				delete(held, k)
+			}
+		}
+	}
+	// a deferred unlock runs at the return: not held afterwards
+	unl := map[string]bool{}
+	for _, b := range g.Blocks {
+		for _, ins := range b.Instrs {
+			c, ok := ins.(ssa.CallInstruction)
+			if !ok {
+				continue
+			}
+			switch calleeName(c.Common()) {
+			case "(*sync.Mutex).Unlock", "(*sync.RWMutex).Unlock", "(*sync.RWMutex).RUnlock":
+				n := describe(c.Common().Args[0])
+				unl[n] = true
+				if _, isDefer := ins.(*ssa.Defer); isDefer {
+					delete(held, n)
+				}
+			}
+		}
+	}
+	for k := range held {
+		acquired = append(acquired, k)
+	}
+	for k := range unl {
+		if !held[k] {
+			released = append(released, k)
+		}
+	}
+	sort.Strings(acquired)
+	sort.Strings(released)
+	lockSummaries[g] = [2][]string{acquired, released}
+	return acquired, released
+}
+
+// substLockName rewrites a mutex named by a parameter of the callee ("$0.mu") into the caller's term for the argument.
+func substLockName(n string, c *ssa.CallCommon) string {
+	if !strings.HasPrefix(n, "$") {
+		return n
+	}
+	i := 1
+	for i < len(n) && n[i] >= '0' && n[i] <= '9' {
+		i++
+	}
+	k := 0
+	for _, ch := range n[1:i] {
+		k = k*10 + int(ch-'0')
+	}
+	if i == 1 || k >= len(c.Args) {
+		return n
+	}
+	return describe(c.Args[k]) + n[i:]
 }
